@@ -13,12 +13,14 @@ Fraction references that do not involve the Lean model (affine function evaluate
 brute-force closest point, brute-force index loops for the bins).
 """
 import itertools
+import warnings
 
 import numpy as np
 
 from harness.common import rat, rat_list, rat_lists, Fraction, dyadic, MachineryError
 
 TOL = 1e-9
+warnings.filterwarnings('ignore', message='No automatic weights')
 
 
 def fr(x):
@@ -772,8 +774,397 @@ def run_ss(case):
     return bad, lines, cmps, {'affine': affine, 'dithers': cnt}
 
 
-RUNNERS = {'sep': run_sep, 'uns': run_uns, 'bin': run_bin, 'ss': run_ss}
-GENS = {'sep': gen_sep, 'uns': gen_uns, 'bin': gen_bin, 'ss': gen_ss}
+
+# ---------------------------------------------------------------------------------------------
+# families `scale` (physical scale + evaluation grids that are tiny perturbations of the source grid) and
+# `reuse` (the same grid objects used, mutated in place or copied-and-mutated, and used again)
+
+SCALES = [1.0, 1.0, 2.0 ** -30, 2.0 ** -27, 2.0 ** -10, 2.0 ** 10, 2.0 ** 20, 1e-9, 1e-8, 1e-3, 1e3, 1e6]
+FRACS = [1e-9, 1e-7, 1e-6, 3e-6, 1e-5, 1e-4, 1e-3, 0.3, 0.7]
+
+
+def state_points(st):
+    return grid_points(st['axes']) if st['kind'] != 'unstructured' else [list(q) for q in st['pts']]
+
+
+def build_grid(st):
+    import hcipy
+    if st['kind'] == 'unstructured':
+        nd = len(st['pts'][0])
+        return hcipy.CartesianGrid(hcipy.UnstructuredCoords([np.array([q[k] for q in st['pts']], dtype=float) for k in range(nd)]))
+    return make_grid(st['axes'], st['kind'] == 'regular')
+
+
+def apply_op_state(st, op):
+    """pure bookkeeping of what a grid operation has to do to the coordinates (and to the point order)"""
+    st = json_copy(st)
+    name, arg = op[0], (op[1] if len(op) > 1 else None)
+    nd = len(st['axes']) if st['kind'] != 'unstructured' else len(st['pts'][0])
+    f = ([arg] * nd if not isinstance(arg, list) else arg) if arg is not None else None
+    if st['kind'] == 'unstructured':
+        if name == 'reverse':
+            st['pts'] = st['pts'][::-1]
+        elif name == 'scale':
+            st['pts'] = [[x * fk for x, fk in zip(q, f)] for q in st['pts']]
+        else:
+            st['pts'] = [[x + fk for x, fk in zip(q, f)] for q in st['pts']]
+    else:
+        if name == 'reverse':
+            st['axes'] = [a[::-1] for a in st['axes']]
+        elif name == 'scale':
+            st['axes'] = [[x * fk for x in a] for a, fk in zip(st['axes'], f)]
+        else:
+            st['axes'] = [[x + fk for x in a] for a, fk in zip(st['axes'], f)]
+    return st
+
+
+def json_copy(x):
+    import json
+    return json.loads(json.dumps(x))
+
+
+def apply_op_real(grid, op, inplace):
+    name, arg = op[0], (op[1] if len(op) > 1 else None)
+    a = np.array(arg, dtype=float) if isinstance(arg, list) else arg
+    if inplace:
+        if name == 'reverse':
+            grid.reverse()
+        elif name == 'scale':
+            grid.scale(a)
+        else:
+            grid.shift(a)
+        return grid
+    if name == 'reverse':
+        return grid.reversed()
+    if name == 'scale':
+        return grid.scaled(a)
+    return grid.shifted(a)
+
+
+def hull_classifier(src, pix=0.0):
+    """exact (Fraction) classification of points against the convex hull of a 2-D cloud; points within 1e-9 pixel
+    of the hull boundary count as boundary (decision boundary of SciPy's tolerant point location)"""
+    import scipy.spatial
+    tri = scipy.spatial.Delaunay(np.array(src, dtype=float))
+    fs = [frl(q) for q in src]
+    simplices = [[int(v) for v in sx] for sx in tri.simplices]
+    edges = [[int(v) for v in e] for e in tri.convex_hull]
+
+    def classify(p):
+        fp = frl(p)
+        for i, j in edges:
+            (ax, ay), (bx, by) = fs[i], fs[j]
+            cr = (bx - ax) * (fp[1] - ay) - (by - ay) * (fp[0] - ax)
+            e2 = (bx - ax) ** 2 + (by - ay) ** 2
+            slack = 1e-9 * pix
+            if float(cr) ** 2 <= (slack ** 2) * float(e2):
+                t = (fp[0] - ax) * (bx - ax) + (fp[1] - ay) * (by - ay)
+                if -slack * float(e2) ** 0.5 <= float(t) <= float(e2) + slack * float(e2) ** 0.5:
+                    return 'boundary'
+        for sx in simplices:
+            (ax, ay), (bx, by), (cx, cy) = [fs[v] for v in sx]
+            det = (bx - ax) * (cy - ay) - (cx - ax) * (by - ay)
+            if det == 0:
+                continue
+            l1 = ((fp[0] - ax) * (cy - ay) - (cx - ax) * (fp[1] - ay)) / det
+            l2 = ((bx - ax) * (fp[1] - ay) - (fp[0] - ax) * (by - ay)) / det
+            if l1 >= 0 and l2 >= 0 and 1 - l1 - l2 >= 0:
+                return 'inside'
+        return 'outside'
+    return classify
+
+
+def check_pair(bad, lines, cmps, tag, st, grid, vals, affine, egrid, epts, pix, keys, interps=None):
+    """Linear + nearest through the public dispatchers on the source grid object `grid` (expected coordinates: `st`),
+    evaluated on the grid object `egrid` (expected points `epts`).  Returns the interpolators."""
+    import hcipy
+    src = state_points(st)
+    uns = st['kind'] == 'unstructured'
+    field = hcipy.Field(np.array(vals, dtype=float), grid)
+    vscale = max([1.0] + [abs(v) for v in vals])
+    try:
+        lin, near = interps if interps else (hcipy.make_linear_interpolator(field), hcipy.make_nearest_interpolator(field))
+        gl = to_list(lin(egrid))
+        gn = to_list(near(egrid))
+    except Exception as e:  # noqa
+        bad.append((keys[0], '%s: interpolation raised %s: %s' % (tag, type(e).__name__, str(e)[:100])))
+        return None
+    if len(gl) != len(epts) or len(gn) != len(epts):
+        bad.append((keys[0], '%s: %d / %d values for %d evaluation points' % (tag, len(gl), len(gn), len(epts))))
+        return None
+    if uns:
+        classify = hull_classifier(src, pix)
+        where = [classify(q) for q in epts]
+    else:
+        where = ['inside' if all(min(a) <= x <= max(a) for a, x in zip(st['axes'], q)) else 'outside' for q in epts]
+    lookup = {tuple(q): v for q, v in zip(src, vals)}
+    fsrc = [frl(q) for q in src]
+    skip_near = set()
+    for k, (q, w) in enumerate(zip(epts, where)):
+        # ---- linear
+        want = None
+        if tuple(q) in lookup and w != 'boundary':
+            want = lookup[tuple(q)]
+        elif affine is not None and (w == 'inside' or (w == 'outside' and not uns)):
+            want = float(aff(affine[0], affine[1], q))          # separated dispatcher: fill None = extrapolation
+        if want is not None and not abs(gl[k] - want) <= TOL * vscale:
+            bad.append((keys[0], '%s: linear interpolator returned %r at %r, expected %r' % (tag, gl[k], q, want)))
+            return None
+        if uns and w == 'outside' and gl[k] == gl[k]:
+            bad.append((keys[0], '%s: point %r outside the hull did not get the fill value' % (tag, q)))
+            return None
+        # ---- nearest
+        if not uns and w == 'outside':
+            if gn[k] == gn[k]:
+                bad.append((keys[1], '%s: nearest interpolator returned %r outside the domain at %r' % (tag, gn[k], q)))
+                return None
+            continue
+        fq = frl(q)
+        d2 = [sum((a - b) ** 2 for a, b in zip(sq, fq)) for sq in fsrc]
+        d = [float(x) ** 0.5 for x in d2]
+        dm, dm2 = min(d), min(d2)
+        allowed = set(vals[j] for j in range(len(src)) if d[j] - dm <= 1e-10 * pix)
+        exact = set(vals[j] for j in range(len(src)) if d2[j] == dm2)
+        if len(allowed) > 1 and allowed != exact:
+            skip_near.add(k)                                    # near-tie: the model's exact decision is not compared
+        if gn[k] not in allowed:
+            bad.append((keys[1], '%s: nearest interpolator returned %r at %r, closest samples have %r' % (tag, gn[k], q, sorted(allowed))))
+            return None
+    if uns:
+        lines.append('C18 near-uns %s %s %s' % (rat_lists(src), rat_list(vals), rat_lists(epts)))
+        cmps.append(('near-uns', gn, {'skip': skip_near}))
+    else:
+        lines.append('C18 lin-sep new ext %s %s %s' % (rat_lists(st['axes']), rat_list(vals), rat_lists(epts)))
+        cmps.append(('lin-sep', gl, {'nan': None}))
+        lines.append('C18 near-sep new %s %s %s' % (rat_lists(st['axes']), rat_list(vals), rat_lists(epts)))
+        cmps.append(('near-sep', gn, {'nan': None, 'skip': skip_near}))
+    return lin, near
+
+
+def actual_state(st, grid):
+    if st['kind'] == 'unstructured':
+        nd = len(st['pts'][0])
+        cs = [np.asarray(grid.coords[k], dtype=float) for k in range(nd)]
+        return {'kind': st['kind'], 'pts': [[float(c[i]) for c in cs] for i in range(len(st['pts']))]}
+    return {'kind': st['kind'], 'axes': [[float(v) for v in c] for c in grid.separated_coords]}
+
+
+def gen_source_state(rng, big, kinds=('regular', 'separated', 'unstructured')):
+    kind = str(rng.choice(kinds))
+    if kind == 'unstructured':
+        style = str(rng.choice(['scattered', 'lattice', 'shared-coords']))
+        pts, _ = gen_cloud(rng, big, style)
+        return {'kind': kind, 'pts': pts}
+    nd = 1 if rng.random() < 0.2 else 2
+    axes = []
+    for _ in range(nd):
+        n = int(rng.integers(2, 6))
+        if kind == 'regular':
+            d = float(rng.choice([0.25, 0.5, 1.0, 1.5, 2.0]))
+            z = dyadic(rng, -3, 3, 2)
+            a = [z + d * i for i in range(n)]
+        else:
+            a = gen_knots(rng, n)
+        axes.append(a[::-1] if rng.random() < 0.3 else a)
+    return {'kind': kind, 'axes': axes}
+
+
+def state_pixel(st):
+    if st['kind'] == 'unstructured':
+        xs = sorted(set(x for q in st['pts'] for x in q))
+    else:
+        xs = sorted(set(x for a in st['axes'] for x in a))
+    gaps = [b - a for a, b in zip(xs, xs[1:]) if b > a]
+    return min(gaps) if gaps else 1.0
+
+
+def scale_state(st, S):
+    st = json_copy(st)
+    if st['kind'] == 'unstructured':
+        st['pts'] = [[x * S for x in q] for q in st['pts']]
+    else:
+        st['axes'] = [[x * S for x in a] for a in st['axes']]
+    return st
+
+
+def gen_values(rng, st, S):
+    nd = len(st['axes']) if st['kind'] != 'unstructured' else 2
+    if rng.random() < 0.65:
+        c0, c = affine_coeffs(rng, nd)
+        return {'affine': [c0, [ck / S for ck in c]]}
+    return {'vals': [dyadic(rng, -8, 8, 3) for _ in range(len(state_points(st)))]}
+
+
+def values_of(v, st):
+    if 'affine' in v:
+        return [float(aff(v['affine'][0], v['affine'][1], q)) for q in state_points(st)], v['affine']
+    return v['vals'], None
+
+
+def gen_scale(rng, big):
+    S = float(rng.choice(SCALES))
+    st = scale_state(gen_source_state(rng, big), S)
+    pix = state_pixel(st)
+    nd = len(st['axes']) if st['kind'] != 'unstructured' else 2
+    case = {'fam': 'scale', 'S': S, 'src': st, 'values': gen_values(rng, st, S)}
+    u = rng.random()
+    if u < 0.6:
+        # the evaluation grid is a grid of the same kind, shifted by a fraction of a pixel (possibly tiny) per axis
+        frac = float(rng.choice(FRACS))
+        sh = [frac * pix * float(rng.choice([-1.0, 1.0, 0.0, 1.0])) for _ in range(nd)]
+        if all(x == 0 for x in sh):
+            sh[0] = frac * pix
+        case['eval'] = ['shifted', frac, sh]
+    elif u < 0.75:
+        eps = float(rng.choice([1e-9, 1e-7, 1e-6, 1e-5, 1e-4, 1e-3]))
+        case['eval'] = ['stretched', eps, 1.0 + eps]
+    elif u < 0.85:
+        case['eval'] = ['self-copy']                   # an equal grid, but another object
+    else:
+        pts = state_points(st)
+        m = int(rng.integers(1, 7))
+        ev = []
+        for _ in range(m):
+            i, j, k = [int(t) for t in rng.integers(0, len(pts), 3)]
+            a = int(rng.integers(0, 9)); b = int(rng.integers(0, 9 - a)); c = 8 - a - b
+            ev.append([(a * pts[i][t] + b * pts[j][t] + c * pts[k][t]) / 8.0 for t in range(nd)])
+        case['eval'] = ['points', ev]
+    return case
+
+
+def run_scale(case):
+    import hcipy
+    bad, lines, cmps = [], [], []
+    st = case['src']
+    grid = build_grid(st)
+    pix = state_pixel(st)
+    vals, affine = values_of(case['values'], st)
+    ev = case['eval']
+    if ev[0] == 'shifted':
+        est = apply_op_state(st, ['shift', ev[2]])
+        egrid = build_grid(est)
+    elif ev[0] == 'stretched':
+        est = apply_op_state(st, ['scale', ev[2]])
+        egrid = build_grid(est)
+    elif ev[0] == 'self-copy':
+        est = json_copy(st)
+        egrid = build_grid(est)
+    else:
+        nd = len(ev[1][0])
+        est = {'kind': 'unstructured', 'pts': ev[1]}
+        egrid = hcipy.CartesianGrid(hcipy.UnstructuredCoords([np.array([q[k] for q in ev[1]], dtype=float) for k in range(nd)]))
+    # in this family the coordinates the grid objects really hold are the truth (a regular grid stores zero + i*delta,
+    # which differs from the requested list in the last bit at non-dyadic scales)
+    st, est = actual_state(st, grid), actual_state(est, egrid)
+    epts = state_points(est)
+    tag = '%s source grid at scale %g, evaluation grid %s' % (st['kind'], case['S'], ev[0] + (' by %g pixel' % ev[1] if ev[0] == 'shifted' else (' by 1+%g' % ev[1] if ev[0] == 'stretched' else '')))
+    check_pair(bad, lines, cmps, tag, st, grid, vals, affine, egrid, epts, pix, ('scaled-linear', 'scaled-nearest'))
+    return bad, lines, cmps, {'kind': st['kind'], 'eval': ev[0], 'frac': ev[1] if ev[0] in ('shifted', 'stretched') else None}
+
+
+REUSE_OPS = ['reverse', 'reverse', 'scale', 'shift']
+
+
+def gen_reuse(rng, big):
+    S = float(rng.choice([1.0, 1.0, 1.0, 2.0 ** -20, 2.0 ** 10]))
+    st = scale_state(gen_source_state(rng, big), S)
+    nd = len(st['axes']) if st['kind'] != 'unstructured' else 2
+    pix = state_pixel(st)
+    est = scale_state(gen_source_state(rng, big, kinds=('regular', 'separated', 'unstructured', 'unstructured')), S)
+    if (len(est['axes']) if est['kind'] != 'unstructured' else 2) != nd:
+        est = json_copy(st)
+    steps = []
+    cur = st
+    for _ in range(int(rng.integers(1, 5 if big else 4))):
+        name = str(rng.choice(REUSE_OPS))
+        if name == 'scale':
+            f = [float(rng.choice([2.0, 0.5, -1.0, -2.0, 1.0])) for _ in range(nd)]
+            op = ['scale', f[0] if (len(set(f)) == 1 or rng.random() < 0.4) else f]
+            if cur['kind'] == 'unstructured' and isinstance(op[1], list) and False:
+                op = ['scale', f[0]]
+        elif name == 'shift':
+            op = ['shift', [pix * float(rng.integers(-6, 7)) / 2.0 for _ in range(nd)]]
+        else:
+            op = ['reverse']
+        steps.append({'target': str(rng.choice(['src', 'src', 'eval'])), 'op': op, 'inplace': bool(rng.random() < 0.5),
+                      'values': None, 'keep_interp': bool(rng.random() < 0.5)})
+    case = {'fam': 'reuse', 'S': S, 'src': st, 'eval': est, 'steps': steps, 'seed_values': int(rng.integers(0, 2 ** 31))}
+    return case
+
+
+def run_reuse(case):
+    import hcipy
+    bad, lines, cmps = [], [], []
+    vr = np.random.default_rng(case['seed_values'])
+    st, est = case['src'], case['eval']
+    G, E = build_grid(st), build_grid(est)
+    S = case['S']
+    hist = []
+
+    def use(tag, interps=None, vals_aff=None):
+        nonlocal st
+        if vals_aff is None:
+            v = gen_values(vr, st, S)
+            vals, affine = values_of(v, st)
+        else:
+            vals, affine = vals_aff
+        r = check_pair(bad, lines, cmps, tag, st, G, vals, affine, E, state_points(est), state_pixel(st), ('reuse-linear', 'reuse-nearest'), interps)
+        # the same grid object in binning and supersampling
+        if not bad and st['kind'] != 'unstructured':
+            nd = len(st['axes'])
+            c0, c = affine_coeffs(vr, nd)
+            c = [ck / S for ck in c]
+            try:
+                res = to_list(hcipy.evaluate_supersampled(lambda g: hcipy.Field(c0 + sum(ck * np.asarray(g.coords[k]) for k, ck in enumerate(c)), g), G, 2))
+                want = [aff(c0, c, q) for q in state_points(st)]
+                err = cmp_vals(res, want)
+                if err is None or err > TOL:
+                    bad.append(('reuse-supersampled', '%s: supersampled affine function differs from its direct evaluation' % tag))
+            except Exception as e:  # noqa
+                bad.append(('reuse-supersampled', '%s: evaluate_supersampled raised %s' % (tag, type(e).__name__)))
+            if not bad and st['kind'] == 'regular' and all(len(a) % 2 == 0 for a in st['axes']):
+                try:
+                    fv = [dyadic(vr, -8, 8, 3) for _ in range(len(state_points(st)))]
+                    r2 = hcipy.subsample_field(hcipy.Field(np.array(fv), G), 2, statistic='mean')
+                    dims = [len(a) // 2 for a in st['axes']]
+                    wantv = [x / (2 ** nd) for x in brute_bin(frl(fv), dims, 2)]
+                    err = cmp_vals(to_list(r2), wantv)
+                    caxes = [[(a[2 * i] + a[2 * i + 1]) / 2 for i in range(len(a) // 2)] for a in st['axes']]
+                    gc = [[float(x) for x in cc] for cc in r2.grid.separated_coords]
+                    geo = all(len(x) == len(y) and all(abs(u - w) <= 1e-9 * max(abs(w), state_pixel(st)) for u, w in zip(x, y)) for x, y in zip(gc, caxes))
+                    if err is None or err > TOL or not geo:
+                        bad.append(('reuse-binning', '%s: subsample_field %s' % (tag, 'values differ from the brute-force bins' if not geo is False and (err is None or err > TOL) else 'lives on a grid that is not the binned grid')))
+                except Exception as e:  # noqa
+                    bad.append(('reuse-binning', '%s: subsample_field raised %s' % (tag, type(e).__name__)))
+        return r, (vals, affine)
+
+    r, va = use('first use')
+    for k, stp in enumerate(case['steps']):
+        if bad:
+            break
+        hist.append('%s.%s%s(%s)' % (stp['target'], stp['op'][0], '' if stp['inplace'] else ('d' if stp['op'][0] != 'shift' else 'ed'), stp['op'][1] if len(stp['op']) > 1 else ''))
+        try:
+            if stp['target'] == 'src':
+                G = apply_op_real(G, stp['op'], stp['inplace'])
+                st = apply_op_state(st, stp['op'])
+            else:
+                E = apply_op_real(E, stp['op'], stp['inplace'])
+                est = apply_op_state(est, stp['op'])
+        except Exception as e:  # noqa
+            bad.append(('reuse-grid-op', '%s raised %s: %s' % (hist[-1], type(e).__name__, str(e)[:80])))
+            break
+        tag = 'after ' + ', '.join(hist)
+        if stp['target'] == 'eval' and stp['keep_interp'] and r is not None:
+            # the SAME interpolators as before, evaluated on the changed evaluation grid object
+            r, va = use(tag + ' (old interpolators)', interps=r, vals_aff=va)
+        else:
+            r, va = use(tag)
+    info = {'kind': case['src']['kind'], 'ekind': case['eval']['kind'], 'nsteps': len(case['steps'])}
+    return bad, lines, cmps, info
+
+
+RUNNERS = {'sep': run_sep, 'uns': run_uns, 'bin': run_bin, 'ss': run_ss, 'scale': run_scale, 'reuse': run_reuse}
+GENS = {'sep': gen_sep, 'uns': gen_uns, 'bin': gen_bin, 'ss': gen_ss, 'scale': gen_scale, 'reuse': gen_reuse}
 
 
 DIRECTED = [
@@ -794,6 +1185,19 @@ DIRECTED = [
     {'fam': 'uns', 'pts_src': [[0.75, 2.25], [4.0, 2.375], [-0.625, 0.375], [0.375, 3.875], [-0.625, -1.25], [1.875, -3.5], [1.625, -0.25],
                                [2.0, -3.125], [-1.25, -1.125], [-3.5, 1.5], [-0.5, -3.125]], 'affine': [2.0, [1.0, -3.0]],
      'pts': [[-4.125, 3.0], [1.875, -3.5], [-0.5, 2.0], [0.75, -1.734375], [1.625, -0.25], [0.859375, 1.78125]], 'route': 'unstructured-fill0'},
+    # non-dyadic physical scale: the midpoint of a cell is a near-tie for the nearest interpolator (float and exact decision differ)
+    {'fam': 'scale', 'S': 1e-08, 'src': {'kind': 'separated', 'axes': [[-1.125e-08, -6.25e-09, 1e-08], [-2.25e-08, -2.1250000000000002e-08]]},
+     'values': {'affine': [-1.5, [-275000000.0, 50000000.0]]},
+     'eval': ['points', [[-4.218749999999999e-09, -2.234375e-08], [1e-08, -2.1718750000000004e-08], [1.8750000000000007e-09, -2.25e-08]]]},
+    # focal-plane-sized pixels: an evaluation grid shifted by 0.7 pixel is *not* the source grid (seeded defect C18-6)
+    {'fam': 'scale', 'S': 2.0 ** -27, 'src': {'kind': 'regular', 'axes': [[x * 2.0 ** -27 for x in (0.0, 1.0, 2.0, 3.0)], [y * 2.0 ** -27 for y in (0.0, 1.0, 2.0)]]},
+     'values': {'affine': [1.0, [2.0 * 2.0 ** 27, 3.0 * 2.0 ** 27]]}, 'eval': ['shifted', 0.7, [0.7 * 2.0 ** -27, 0.0]]},
+    # the same grid object used, reversed (copy and in place), used again (seeded defect C18-7)
+    {'fam': 'reuse', 'S': 1.0, 'src': {'kind': 'unstructured', 'pts': [[0.0, 0.0], [2.0, 0.0], [0.0, 2.0], [2.0, 2.0], [1.0, 0.5], [0.5, 1.5]]},
+     'eval': {'kind': 'unstructured', 'pts': [[0.5, 0.5], [1.25, 1.0], [1.75, 1.875], [0.25, 1.5]]}, 'seed_values': 7,
+     'steps': [{'target': 'src', 'op': ['reverse'], 'inplace': False, 'values': None, 'keep_interp': False},
+               {'target': 'eval', 'op': ['reverse'], 'inplace': True, 'values': None, 'keep_interp': True},
+               {'target': 'src', 'op': ['scale', [2.0, -1.0]], 'inplace': True, 'values': None, 'keep_interp': False}]},
     # structured clouds stored as unstructured grids (seeded defect C18-3: a lattice "fast path" that assumes native order)
     {'fam': 'uns', 'cloud': 'lattice', 'order': 'y-fastest', 'pts_src': [[x, y] for x in (0.0, 1.0, 2.0, 4.0) for y in (0.0, 1.0, 3.0)],
      'affine': [1.0, [2.0, 3.0]], 'eval_self': True, 'pts': [[x, y] for x in (0.0, 1.0, 2.0, 4.0) for y in (0.0, 1.0, 3.0)], 'route': 'dispatch'},
@@ -855,6 +1259,19 @@ def check_case(ctx, case, all_lines, index):
         ctx.count('bin:tensor_shape:%s' % (case['tshape'],))
         ctx.count('bin:' + ('regular' if case['regular'] else 'separated-weighted' if case['stat'] == 'mean' else 'separated'))
         sig = (fam, tuple(case['dims']), case['s'], tuple(case['tshape']), case['stat'], case['regular'])
+    elif fam == 'scale':
+        ctx.count('scale:source:' + info['kind'])
+        ctx.count('scale:S=%g' % case['S'])
+        ctx.count('scale:eval:' + info['eval'] + ('' if info['frac'] is None else ':%g' % info['frac']))
+        sig = (fam, info['kind'], case['S'], info['eval'], info['frac'], 'affine' in case['values'])
+    elif fam == 'reuse':
+        ctx.count('reuse:source:' + info['kind'])
+        ctx.count('reuse:eval:' + info['ekind'])
+        for stp in case['steps']:
+            ctx.count('reuse:op:%s.%s:%s' % (stp['target'], stp['op'][0], 'in-place' if stp['inplace'] else 'copy'))
+            if stp['target'] == 'eval' and stp['keep_interp']:
+                ctx.count('reuse:old-interpolator-on-changed-evaluation-grid')
+        sig = (fam, info['kind'], info['ekind'], tuple((t['target'], t['op'][0], t['inplace']) for t in case['steps']))
     else:
         ctx.count('ss:stat:' + case['stat'])
         ctx.count('ss:dirs:' + dirs_of(case['axes']))
@@ -886,7 +1303,9 @@ def compare_model(ctx, out, case, cmps, base, had_bad):
         body = resp[3:]
         if stream == 'near-uns':
             groups = [] if body == '-' else [parse_vals(g) for g in body.split(';')]
-            if len(groups) != len(got) or any(g not in [float(v) for v in grp] for g, grp in zip(got, groups)):
+            skip = opt.get('skip') or set()
+            ctx.boundary_skipped += len(skip)
+            if len(groups) != len(got) or any(g not in [float(v) for v in grp] for i, (g, grp) in enumerate(zip(got, groups)) if i not in skip):
                 ctx.disagree('C18 near-uns', {'case': case, 'model': resp, 'impl': got})
                 return
             ctx.count('near-uns:ties', sum(1 for grp in groups if len(set(grp)) > 1))
@@ -900,6 +1319,11 @@ def compare_model(ctx, out, case, cmps, base, had_bad):
             want = parse_vals(body)
         if opt.get('nan') is not None:
             want = [Fraction(opt['nan']) if w is None else w for w in want]
+        if opt.get('skip'):
+            ctx.boundary_skipped += len(opt['skip'])
+            keep = [i for i in range(len(got)) if i not in opt['skip']]
+            if len(want) == len(got):
+                got, want = [got[i] for i in keep], [want[i] for i in keep]
         err = cmp_vals(got, want)
         if err is None or err > TOL:
             ctx.disagree('C18 ' + stream, {'case': case, 'model': resp, 'impl': got, 'err': err})
@@ -920,9 +1344,9 @@ def run(ctx):
                         'all coordinates and values are short dyadic rationals, so squared distances and comparisons are exact in float']
     n = ctx.scale(4000, 60000)
     cases = list(DIRECTED)
-    fams = ['sep', 'uns', 'bin', 'ss']
+    fams = ['sep', 'uns', 'bin', 'ss', 'scale', 'reuse']
     for k in range(n):
-        fam = fams[k % 4]
+        fam = fams[k % 6]
         cases.append(GENS[fam](ctx.rng, big=(ctx.tier == 'thorough' and k % 3 == 0)))
     all_lines, index = [], []
     for case in cases:
